@@ -466,6 +466,6 @@ func TestGenerate(t *testing.T) {
 			return err == nil && len(schema.Constructs(files)) >= 3
 		},
 		Classes: genClasses,
-		Quick:   250, Thorough: 1500,
+		Quick:   400, Thorough: 1500,
 	})
 }
